@@ -496,8 +496,8 @@ fn cmd_selftest() -> i32 {
         }
     }
     println!("selftest: {} curated roots checked", gen::roots().len());
-    if synth::lattice_entries() != 102_400 + 5_248 {
-        println!("selftest: slider lattice has {} entries, expected 107648", synth::lattice_entries());
+    if synth::slider_lattice_entries() != 102_400 + 5_248 || synth::ray_lattice_entries() != (896 + 560) * 6 {
+        println!("selftest: lattice has {} + {} entries, expected 107648 + 8736", synth::slider_lattice_entries(), synth::ray_lattice_entries());
         bad += 1;
     }
     // replay-file format round trip
